@@ -364,7 +364,9 @@ def _tol(m, sid):
         return 0.0
     if m == 'rho-a':
         return ATOL_RHO
-    if m in COV_METHODS and sigma_cls(sid) == 'matrix':
+    # conjugate gradients (rtol 1e-5 of scipy) whenever V is not handled in closed form: a matrix, and a
+    # non-constant variance vector once it is routed through the definition
+    if m in COV_METHODS and sigma_cls(sid) in ('matrix', 'vector'):
         return ATOL_CG
     return ATOL_CLOSED
 
